@@ -456,6 +456,7 @@ def transparency(ctx, rng):
             shutil.rmtree(d, ignore_errors=True)
     ctx.count(n_eval, key=("slices", len(cases)))
     ctx.cov["slice_cases"] = len(cases)
+    uuid_names(ctx, rng)
     # byte identity compress -> decompress for many shapes (projection 'C' = identical bytes)
     import spikeglx as sg
     shapes = [(ns, nsites) for ns in ([1, 4, 5, 6, 11] if ctx.quick else list(range(1, 15))) for nsites in ([1, 4] if ctx.quick else [1, 2, 4, 17])]
@@ -479,6 +480,43 @@ def transparency(ctx, rng):
             ctx.violation("compress:RoundTrip", f"compress->decompress ns={ns} nc={nsites + 1}: directory {mid} then {end}",
                           {"ns": ns, "nsites": nsites})
         shutil.rmtree(d, ignore_errors=True)
+
+
+def uuid_names(ctx, rng):
+    """companion lookup when the files carry dataset UUIDs in their names (each file its own UUID): the data file, the
+    compressed file and the header must still find each other"""
+    import uuid
+    import spikeglx
+    world = World(Path(ctx.scratch) / "wu", 12, rng)
+    d = Path(ctx.scratch) / "udir"
+    st = {n: "A" for n in NAMES}
+    st.update({"bin": "C", "cbin": "C", "ch": "C", "meta": "C"})
+    p = world.setup(d, st)
+    ur = random.Random(ctx.seed)
+    u = [str(uuid.UUID(int=ur.getrandbits(128), version=4)) for _ in range(4)]
+    stem = STEM
+    names = {"bin": f"{stem}.{u[0]}.bin", "cbin": f"{stem}.{u[1]}.cbin", "ch": f"{stem}.{u[2]}.ch", "meta": f"{stem}.{u[3]}.meta"}
+    for layout in (("bin", "meta"), ("cbin", "ch", "meta")):
+        dd = Path(ctx.scratch) / ("udir_" + "_".join(layout))
+        shutil.rmtree(dd, ignore_errors=True)
+        dd.mkdir(parents=True)
+        for k in layout:
+            shutil.copy(p[k], dd / names[k])
+        entry = dd / names[layout[0]]
+        ctx.count(1, key=("uuid", layout))
+        try:
+            sr = spikeglx.Reader(entry)
+            same = sr.shape == (world.ns, world.nc) and np.array_equal(
+                sr[:, :], world.data.astype(np.float32) * sr.sample2volts[None, :])
+            sr.close()
+            if not same:
+                ctx.violation("compress:ResolveSame:uuid", f"Reader({entry.name}) with UUID-named companions {sorted(names[k] for k in layout)} "
+                              f"does not expose the recording", {"uuid_layout": list(layout)})
+        except Exception as e:  # noqa
+            ctx.violation("compress:ResolveSame:uuid", f"Reader({entry.name}) with UUID-named companions raised {type(e).__name__}: {e}",
+                          {"uuid_layout": list(layout)})
+        shutil.rmtree(dd, ignore_errors=True)
+    shutil.rmtree(d, ignore_errors=True)
 
 
 def selftest(ctx, traces, bad):
